@@ -224,6 +224,15 @@ class Rules:
         src = self.regex_rule('R3', fname, src, r'dyn Engine \+ Send \+ Sync', 'dyn Engine')
         # R8
         src = self.regex_rule('R8', fname, src, r'debug_assert_eq!\(([^;]+?), ([^;,]+?)\);', r'debug_assert!(\1 == \2);')
+        # R18: u128::from_le_bytes has an anonymous-constant array length in its signature that assume_specification cannot name:
+        # the call goes to an in-file stub carrying the assumed contract (same role as an assume_specification)
+        src = self.regex_rule('R18', fname, src, r'\bu128::from_le_bytes\(', 'crate::vprelude::u128_from_le_bytes(')
+        # R19: `<Box<[T; N]>>.copy_from_slice(src)` (auto-deref to the array, unsizing to a slice) makes this Verus abort with an
+        # internal error; the call goes to an in-file stub carrying slice::copy_from_slice's contract (one place: initialize_log_walsh)
+        src = self.regex_rule('R19', fname, src, r'\blog_walsh\.copy_from_slice\(', 'crate::vprelude::box_array_copy_from_slice(&mut log_walsh, ')
+        # R20: `<Box<T>>.as_mut()` -> `&mut *<box>` (that is the body of Box's AsMut impl; its ?Sized signature cannot be given
+        # an assume_specification with value-level postconditions). One place: initialize_log_walsh.
+        src = self.regex_rule('R20', fname, src, r'\blog_walsh\.as_mut\(\)', '&mut *log_walsh')
         # R9
         src = self.regex_rule('R9', fname, src, r'(?:std::arch::)?is_(?:x86|aarch64)_feature_detected!\("([\w.]+)"\)',
                               lambda m: 'crate::vprelude::detect_%s()' % m.group(1) if m.group(1) in ('avx2', 'ssse3', 'neon') else 'crate::vprelude::detect_other_feature()')
